@@ -216,7 +216,9 @@ def canon(x):
 
 PROPS["C05"] = {
     "harness": {"kind": "cmd", "cmd": "sendbid"},
-    "extra_harnesses": [{"cmd": "nodewire", "tag": "nodewire"}, {"kind": "overlay", "pkg": "pkg/p2p/libp2p", "pkgname": "libp2p", "files": ["libp2p/c14_test.go"], "test": "TestVerifC14Order", "tag": "notify-order"}],
+    "extra_harnesses": [{"cmd": "nodewire", "tag": "nodewire"}, {"kind": "overlay", "pkg": "pkg/p2p/libp2p", "pkgname": "libp2p", "files": ["libp2p/c14_test.go"], "test": "TestVerifC14Order", "tag": "notify-order"},
+                        # which providers count as connected when a bid is sent is the peer registry's bookkeeping of connections
+                        {"kind": "overlay", "pkg": "pkg/p2p/libp2p", "pkgname": "libp2p", "files": ["libp2p/c14_test.go"], "test": "TestVerifC14", "tag": "c14"}],
     "agree": _c05_agree,
     "level_text": "Theorems for every number of providers, every reply behaviour and every arrival order (any duplicate-free order of the per-provider goroutines; order independence proved as a permutation statement): every delivered commitment passed VerifyPreConfirmation, carries as provider address the recovered signer (C02 characterisation instantiated: digest = commitment hash over the sent bid, recover + low-S), and embeds exactly the bid this call sent; a commitment for a different valid bid (the provider's own or a replayed one) is never surfaced; at most one delivery per provider; the number of deliveries never exceeds the channel capacity, so no sender blocks and the closer runs once all goroutines returned. Tied to the real SendBid with the real preconfsigner over a scripted topology/streamer: 0..8 providers, 17 reply classes incl. different-valid-bid, replayed bid, foreign/invalid/short signatures, missing parts, error frames, garbage, silence, reset, open/write failures, forced arrival orders, deadline on or off; goroutine count sampled after completion. Whole node: the scenarios of harness/cmd/nodewire (two real nodes built by node.NewNode against a scripted JSON-RPC chain node, driven through their gRPC APIs: stake / allowance present or not, engine accepts or rejects, well-formed or malformed request) are part of this check and are judged by Model/Wiring.",
     "level_note": "Trusted: Lean kernel; harness; liveness is proved under the contract that every blocking stream operation returns by the caller's deadline (stream.ReadMsg/WriteMsg select on ctx); real goroutine scheduling is sampled, not proved. When the deadline passes, a ready delivery may lose the select against ctx.Done (Go picks at random): deliveries are then compared as a sub-multiset.",
